@@ -69,6 +69,18 @@ impl OverlayFS {
             .join(format!(".whiteout/{}_wo", &path[1..]))
     }
 
+    fn clear_whiteout(&self, path: &str) -> VfsResult<()> {
+        let whiteout_path = self.whiteout_path(path)?;
+        if whiteout_path.exists()? {
+            match whiteout_path.remove_file() {
+                // cleared by a concurrent caller in the meantime
+                Err(err) if matches!(err.kind(), VfsErrorKind::FileNotFound) => {}
+                other => other?,
+            }
+        }
+        Ok(())
+    }
+
     fn ensure_has_parent(&self, path: &str) -> VfsResult<()> {
         let separator = path.rfind('/');
         if let Some(index) = separator {
@@ -130,12 +142,15 @@ impl FileSystem for OverlayFS {
                 VfsFileType::Directory => Err(VfsErrorKind::DirectoryExists.into()),
             };
         }
-        self.write_path(path)?.create_dir()?;
-        let whiteout_path = self.whiteout_path(path)?;
-        if whiteout_path.exists()? {
-            whiteout_path.remove_file()?;
+        if let Err(err) = self.write_path(path)?.create_dir() {
+            if let VfsErrorKind::DirectoryExists = err.kind() {
+                // a concurrent create_dir won the race for the write layer but may not have cleared
+                // the whiteout yet: clear it here too, so that the directory is visible on return
+                self.clear_whiteout(path)?;
+            }
+            return Err(err);
         }
-        Ok(())
+        self.clear_whiteout(path)
     }
 
     fn open_file(&self, path: &str) -> VfsResult<Box<dyn SeekAndRead + Send>> {
